@@ -3,6 +3,8 @@ from __future__ import annotations
 
 import io
 import json
+import pathlib
+import re
 import tokenize
 
 import common
@@ -117,6 +119,139 @@ def filtered_tokens(text: str):
     return out
 
 
+import token as _token
+
+KIND = {_token.NAME: "TName", _token.STRING: "TStr", _token.NUMBER: "TNum", _token.OP: "TOp",
+        _token.FSTRING_START: "TFStart", _token.FSTRING_MIDDLE: "TFMid", _token.FSTRING_END: "TFEnd"}
+BARE = {_token.NEWLINE: "TNl", _token.INDENT: "TIndent", _token.DEDENT: "TDedent", _token.ENDMARKER: "TEnd"}
+
+
+def gtoks(text: str) -> list[str]:
+    """the token stream pegen's Tokenizer hands to the meta-parser, as Meta/Reader.v terms"""
+    tk = Tokenizer(tokenize.generate_tokens(io.StringIO(text).readline))
+    out = []
+    while True:
+        t = tk.getnext()
+        out.append(BARE[t.type] if t.type in BARE else f"{KIND.get(t.type, 'TOther')} {cstr(t.string)}")
+        if t.type == _token.ENDMARKER:
+            return out
+
+
+def tl(l: list[str]) -> str:
+    return "[" + "; ".join(l) + "]"
+
+
+def texts_of(g) -> list[str]:
+    out = set()
+
+    def walk(x):
+        if isinstance(x, G.Rhs):
+            for a in x.alts:
+                if a.action:
+                    out.add(a.action)
+                for ni in a.items:
+                    if ni.type:
+                        out.add(ni.type)
+                    walk(ni.item)
+        elif isinstance(x, G.Group):
+            walk(x.rhs)
+        elif isinstance(x, G.Gather):
+            walk(x.separator)
+            walk(x.node)
+        elif hasattr(x, "node"):
+            walk(x.node)
+    for r in g.rules.values():
+        if r.type:
+            out.add(r.type)
+        walk(r.rhs)
+    return sorted(out)
+
+
+def lex_table(g) -> str | None:
+    rows = []
+    for s in texts_of(g):
+        try:
+            ts = gtoks(s)
+        except Exception:
+            return None
+        rows.append(f"({cstr(s)}, {tl(ts[:-2] if ts[-2:] == ['TNl', 'TEnd'] else ts[:-1])})")
+    return "[" + "; ".join(rows) + "]"
+
+
+def metas_modelled(text: str) -> bool:
+    """are all meta values plain string literals whose escapes Meta/Reader.v's py_unquote models?"""
+    tk = Tokenizer(tokenize.generate_tokens(io.StringIO(text).readline))
+    prev2 = prev = None
+    while True:
+        t = tk.getnext()
+        if t.type == _token.ENDMARKER:
+            return True
+        if t.type == _token.STRING and prev is not None and prev.type == _token.NAME and prev2 is not None and prev2.string == "@":
+            raw = t.string
+            if raw[0] not in "'\"" or re.search(r"\\(?![nt\\'\"])", raw):
+                return False
+        prev2, prev = prev, t
+
+
+def printed_rules(g) -> str:
+    old = G.SIMPLE_STR
+    G.SIMPLE_STR = False
+    try:
+        return str(g) + "\n"
+    finally:
+        G.SIMPLE_STR = old
+
+
+REF_PRELUDE = """From Coq Require Import List String NArith Bool Arith.
+From Pegen Require Import Base.StrUtil Grammar.Ast Meta.Reader Meta.PrintToks Meta.Canon Meta.RoundTripDefs Meta.Strip Meta.Shape.
+Import ListNotations. Open Scope string_scope.
+Definition lex_of (tbl : list (string * list gtok)) (s : string) : list gtok :=
+  match find (fun kv => String.eqb (fst kv) s) tbl with Some kv => snd kv | None => [] end.
+(* Python dict semantics of Grammar.__init__: key order = first definition, value = last definition *)
+Fixpoint last_def (n : string) (rs : list rule) (cur : rule) : rule :=
+  match rs with [] => cur | r :: rs' => last_def n rs' (if String.eqb (rname r) n then r else cur) end.
+Fixpoint dict_rules (seen : list string) (rs : list rule) : list rule :=
+  match rs with
+  | [] => []
+  | r :: rs' => if mem_str (rname r) seen then dict_rules seen rs'
+                else last_def (rname r) rs' r :: dict_rules (rname r :: seen) rs'
+  end.
+Definition same (with_metas : bool) (g' : grammar) (g : grammar) : bool :=
+  grammar_eqb {| rules := dict_rules [] (rules g'); metas := if with_metas then metas g' else [] |}
+              (canon_grammar {| rules := rules g; metas := if with_metas then metas g else [] |}).
+Definition reads (with_metas : bool) (ts : list gtok) (g : grammar) : bool :=
+  match read_grammar (read_fuel ts) ts with Ok g' _ => same with_metas g' g | _ => false end.
+Definition CASE := (bool * list gtok * grammar * list gtok * grammar * option (list (string * list gtok)))%type.
+(* (a) the reference reader reads the original text as the implementation does; (b) likewise the printed text;
+   (c) the token-level printer model gives the tokens of the real rendering; (d) inside the theorem's hypotheses the
+   implementation's re-read grammar is the theorem's [rt_grammar]; (e) modulo redundant parentheses nothing changed *)
+Definition case_ok (c : CASE) : bool :=
+  let '(wm, ts, g, pts, g2, tbl) := c in
+  reads wm ts g && reads false pts g2
+  && match tbl with
+     | Some tbl => list_eqb gtok_eqb (grammar_toks (lex_of tbl) g) pts
+                   && (negb (grammar_ok_b (lex_of tbl) g)
+                       || list_eqb rule_eqb (rules (canon_grammar g2)) (rules (rt_grammar g)))
+     | None => true
+     end
+  && list_eqb rule_eqb (strip_rules g2) (strip_rules g).
+Definition in_hyp (c : CASE) : bool :=
+  let '(wm, ts, g, pts, g2, tbl) := c in
+  match tbl with Some tbl => grammar_ok_b (lex_of tbl) g | None => false end.
+Definition diag (c : CASE) :=
+  let '(wm, ts, g, pts, g2, tbl) := c in
+  (reads wm ts g, reads false pts g2,
+   match tbl with Some tbl => (list_eqb gtok_eqb (grammar_toks (lex_of tbl) g) pts, grammar_ok_b (lex_of tbl) g,
+                               list_eqb rule_eqb (rules (canon_grammar g2)) (rules (rt_grammar g))) | None => (true, false, true) end,
+   list_eqb rule_eqb (strip_rules g2) (strip_rules g)).
+"""
+
+PROBES = {
+    "C09-duplicate-rule-dropped": ("a: b\na: c\n", lambda g: g is not None and len(g.rules) == 1),
+    "C09-rule-named-DEDENT-rejected": ("a: NEWLINE INDENT | x\nDEDENT: y\n", lambda g: g is None),
+    "C09-text-after-ENDMARKER-name-ignored": ("a: b\nENDMARKER junk junk\n", lambda g: g is not None),
+}
+
 PRELUDE_EXTRA = """
 Definition G_META : grammar := %s.
 Definition TBL : list (string * aexp) := %s.
@@ -130,17 +265,41 @@ Definition read_ok (te : list rtok * value) : bool :=
 """
 
 
+def gram_files(tier: str) -> list[pathlib.Path]:
+    fs = sorted(set(common.REPO.glob("data/*.gram")) | set(common.REPO.glob("src/pegen/*.gram"))
+                | set(common.REPO.glob("stories/*/*.gram")))
+    if tier == "quick":
+        fs = [f for f in fs if f.name != "python.gram" and f.name != "fullpy.gram"]
+    return fs
+
+
 def run(chk: common.Check, tier: str):
     chk.rule = ("grammar texts over the documented syntax (both alternative layouts, nested groups/optionals, all prefix and "
                 "postfix operators, named and typed items, actions with nested brackets, strings, f-strings, `$`, memo flag, "
-                "metas; random structured grammars; every .gram file of the repository): (a) what is read is what is "
-                "written (model reader vs real reader, structure), (b) str() with SIMPLE_STR off is readable and denotes the "
-                "same rules modulo redundant parentheses; non-trivial = the grammar nests an operator inside another; "
-                "distinct by grammar text")
+                "metas; random structured grammars; the .gram files of the repository): (a) what is read is what is "
+                "written: the proved-correct reference reader (Meta/Reader.v) and the shipped reader agree on the structure, "
+                "(b) str() with SIMPLE_STR off is readable and denotes the same rules modulo redundant parentheses, (c) inside "
+                "the theorem's hypotheses the re-read grammar is the theorem's rt_grammar; non-trivial = the grammar nests an "
+                "operator inside another; distinct by grammar text")
     r = common.rng("c09")
     kn = gramgen.Knobs(typed=True, memo=True, terminals=("NAME", "NUMBER", "'+'", "','", "'if'", '"in"', "NEWLINE", "ENDMARKER"),
                        action_pool=("x", "[x, y]", "f(x, {1: 2})", "'lit'", "{a: [b]}", "x.y [1]"))
-    texts = LAYOUTS + list(gramgen.gen_grammars(r, kn, 60 if tier == "quick" else 600))
+    texts = LAYOUTS + [t for t, _ in PROBES.values()] + list(gramgen.gen_grammars(r, kn, 60 if tier == "quick" else 600))
+    files = gram_files(tier)
+    texts += [f.read_text() for f in files]
+    origin = {f.read_text(): str(f.relative_to(common.REPO)) for f in files}
+    kfs = {kf["id"]: kf for kf in common.known_findings("C09")}
+    # ---- known findings: probes
+    for fid, (text, pred) in PROBES.items():
+        try:
+            g = read_real(text)
+        except Exception:           # noqa
+            g = None
+        if pred(g):
+            if fid in kfs:
+                chk.known(kfs[fid]["what"])
+            else:
+                chk.violation(f"reader quirk {fid}", {"grammar": text}, True)
     # ---- round trip on the implementation
     good = []
     for t in texts:
@@ -150,7 +309,7 @@ def run(chk: common.Check, tier: str):
             g = None
         chk.count()
         if not g:
-            chk.bump("not readable (generator produced invalid text)")
+            chk.bump("not readable (generator produced invalid text, or a probe)")
             continue
         d1 = g2c.dump(g)
         p = printed(g)
@@ -159,16 +318,48 @@ def run(chk: common.Check, tier: str):
         except Exception as e:      # noqa
             g2 = None
         if "(" in t or "[" in t:
-            chk.note_case(t)
+            chk.note_case(origin.get(t, t))
         if not g2:
-            chk.violation("the printed form of a grammar is not readable grammar text", {"grammar": t, "printed": p}, True)
+            chk.violation("the printed form of a grammar is not readable grammar text",
+                          {"grammar": origin.get(t, t), "printed": p[:3000]}, True)
             continue
         d2 = g2c.dump(g2)
         if json.dumps(strip_parens(d1), sort_keys=True) != json.dumps(strip_parens(d2), sort_keys=True):
             chk.violation("printing and re-reading a grammar changes its rules (beyond redundant parentheses)",
-                          {"grammar": t, "printed": p, "before": strip_parens(d1), "after": strip_parens(d2)}, True)
+                          {"grammar": origin.get(t, t), "printed": p[:3000]}, True)
         good.append((t, g))
-        chk.sample({"grammar": t[:160], "printed": p[:160]}, 3)
+        chk.sample({"grammar": origin.get(t, t)[:160], "printed": p[:160]}, 3)
+    # ---- reference reader / token-level printer / theorem instances, evaluated in Coq
+    cases, descs = [], []
+    for t, g in good:
+        pr = printed_rules(g)
+        try:
+            g2 = read_real(pr)
+            if not g2:
+                continue
+            lt = lex_table(g)
+            cases.append(f"({cbool(metas_modelled(t))}, {tl(gtoks(t))}, {g2c.Translator().grammar(g)}, {tl(gtoks(pr))}, {g2c.Translator().grammar(g2)}, "
+                         f"{'Some ' + lt if lt is not None else 'None'})")
+            descs.append(origin.get(t, t))
+        except Exception as e:        # noqa
+            chk.bump(f"not evaluated in Coq ({type(e).__name__})")
+    failing = common.run_cases(chk, "ref", REF_PRELUDE, "CASE", cases, "case_ok", shard=8, timeout=2400, jobs=12)
+    if failing is not None:
+        chk.oblige(f"correspondence K-ref: on {len(cases)} texts the reference reader (Meta/Reader.v) builds the grammar the "
+                   "shipped GrammarParser builds, for the text and for its full rendering; the token-level printer "
+                   "(Meta/PrintToks.v) gives the tokens of the real rendering; inside the hypotheses of "
+                   "C09_print_then_read the implementation's re-read grammar is rt_grammar; strip_rules is unchanged",
+                   not failing, json.dumps([descs[i][:300] for i in failing[:4]]))
+        for i in failing[:3]:
+            rc, out = diagnose(chk, cases[i])
+            chk.violation("the shipped reader or printer disagrees with the reference reader / token printer of the round-trip "
+                          "theorem on this text (components: reads text, reads rendering, (tokens of rendering, in hypotheses, "
+                          "re-read = rt_grammar), same rules modulo parentheses): " + out[-300:],
+                          {"grammar": descs[i][:3000]}, True)
+        inh = common.run_cases(chk, "hyp", REF_PRELUDE, "CASE", cases, "in_hyp", shard=8, timeout=2400, jobs=12)
+        if inh is not None:
+            chk.bump("explored grammars inside the hypotheses of C09_print_then_read", len(cases) - len(inh))
+            chk.bump("explored grammars outside them (f-strings in actions, standalone-untokenizable texts, ...)", len(inh))
     # ---- K-read: the model of the generated meta-parser reads the same structure as the shipped parser
     d = common.gen_dir("C09")
     try:
@@ -182,22 +373,35 @@ def run(chk: common.Check, tier: str):
     tr = g2c.Translator()
     gterm = tr.grammar(meta)
     res = gm.real_generate(g2c.read_grammar(META.read_text()))
-    cases, descs = [], []
-    kread = good if tier != "quick" else good[:len(LAYOUTS) + 14]
+    kcases, kdescs = [], []
+    probes = {t for t, _ in PROBES.values()}
+    small = [(t, g) for t, g in good if t not in origin and t not in probes]
+    kread = small if tier != "quick" else small[:len(LAYOUTS) + 8]
     for t, g in kread:
         for text in (t, printed(g)):
             try:
                 gg = read_real(text)
-                cases.append(f"({clist(filtered_tokens(text), rm.tok_term)}, {value_of(gg)})")
-                descs.append(text)
+                kcases.append(f"({clist(filtered_tokens(text), rm.tok_term)}, {value_of(gg)})")
+                kdescs.append(text)
             except Exception:
                 continue
     prelude = rm.prelude(tokens_set()) + PRELUDE_EXTRA % (gterm, rm.action_table(res[1]), cN(len(tr.ids) + 1000))
-    failing = common.run_cases(chk, "kread", prelude, "list rtok * value", cases, "read_ok", shard=4, timeout=1500, jobs=14)
+    failing = common.run_cases(chk, "kread", prelude, "list rtok * value", kcases, "read_ok", shard=4, timeout=1500, jobs=14)
     if failing is not None:
         chk.oblige(f"correspondence K-read: the runtime model running the generator model's IR of metagrammar.gram (actions "
-                   f"evaluated by MiniPy) builds the same grammar value as the shipped GrammarParser on {len(cases)} texts "
-                   "(original layouts and their printed forms)", not failing, json.dumps([descs[i] for i in failing[:3]])[:2500])
+                   f"evaluated by MiniPy) builds the same grammar value as the shipped GrammarParser on {len(kcases)} texts "
+                   "(original layouts and their printed forms)", not failing, json.dumps([kdescs[i] for i in failing[:3]])[:2500])
+    chk.assumptions += ["the lexer of action/annotation texts is a parameter of the theorem; in the correspondence it is the "
+                        "host tokenizer applied to each text on its own",
+                        "Grammar.__init__ keeps the last of several rules with one name (dict): the comparison applies the "
+                        "same rule to the reference reader's list (known finding C09-duplicate-rule-dropped)"]
+
+
+def diagnose(chk, case: str):
+    d = common.gen_dir("C09")
+    f = d / "diag.v"
+    f.write_text(REF_PRELUDE + f"Definition c : CASE := {case}.\nEval vm_compute in diag c.\n")
+    return common.coqc(f, timeout=900)
 
 
 def replay(path: str) -> int:
